@@ -291,7 +291,10 @@ def run(M, c):
             off = r.choice((0, r.randrange(-86399, 86400)))
             if not LO <= ts + off <= HI:
                 continue
-            tsv = ts if i % 5 else ts + r.choice((0.5, 0.25, 0.999, 1e-6))
+            # (float timestamps are floored: also the ones whose fraction would round up to the next second on a
+            #  microsecond grid, and the last double before the next second)
+            fr = r.choice((0.5, 0.25, 0.999, 1e-6, 0.9999996, 0.99999951, 1 - 2.0 ** -30, -1e-7, "prev"))
+            tsv = ts if i % 5 else math.nextafter(ts + 1.0, -math.inf) if fr == "prev" else ts + fr
             if not LO <= math.floor(tsv) + off <= HI:
                 continue
             us = r.randrange(10**6)
